@@ -447,15 +447,16 @@ theorem rotOpt_some_ok_iff (rot : V9 → ℝ → ℝ → Except PyErr V9) (V : V
   · rintro ⟨W, h1, h2⟩; exact ⟨W, h1, (Except.ok.inj h2).symm⟩
   · rintro ⟨W, h1, rfl⟩; exact ⟨W, h1, rfl⟩
 
+set_option linter.unusedTactic false in
 /-- with a parameter set that carries uncertainties, `conform7` returns a covariance exactly when it
 is given one -/
 theorem conform7_vcv_none_iff {x y z : ℝ} {p : Transformation} {v : Option V9}
     {r : ℝ × ℝ × ℝ × Option V9} (h : conform7 x y z p v = .ok r) {sd : TransformationSD}
     (hsd : p.tf_sd = some sd) : r.2.2.2 = none ↔ v = none := by
   unfold conform7 at h
-  obtain ⟨a, -, h⟩ := (bind_ok_iff _ _ _).1 h
-  obtain ⟨b, -, h⟩ := (bind_ok_iff _ _ _).1 h
-  obtain ⟨c, -, h⟩ := (bind_ok_iff _ _ _).1 h
+  -- peel off any raising steps that precede the final `match` (none in the current code; the
+  -- earlier `hp2dec` version had three)
+  repeat (replace h := ((bind_ok_iff _ _ _).1 h).choose_spec.2)
   rw [hsd] at h
   cases v with
   | none =>
@@ -464,6 +465,13 @@ theorem conform7_vcv_none_iff {x y z : ℝ} {p : Transformation} {v : Option V9}
   | some W =>
     obtain rfl := Except.ok.inj h
     exact ⟨fun h' => (by cases h'), fun h' => (by cases h')⟩
+
+/-- `conform7` never raises (rotations are converted with `radians(r / 3600)`, no `hp2dec`) -/
+theorem conform7_ok (x y z : ℝ) (p : Transformation) (v : Option V9) :
+    ∃ r, conform7 x y z p v = .ok r := by
+  unfold conform7
+  dsimp only
+  split <;> exact ⟨_, rfl⟩
 
 /-- the two rotations never raise -/
 theorem vcv_local2cart_33_ok (V : V9) (lat lon : ℝ) : ∃ W, vcv_local2cart_33 V lat lon = .ok W :=
